@@ -15,8 +15,9 @@ ID = "C04"
 RULE = ("k=1..6 equal-length vectors (length 0..30) over flags {1,2,3,4,9}, non-flags {0,5,6,7,8,200, NaN, 2.5} and "
         "masked entries (mask over arbitrary - often flag-valued - junk), as uint8/int64/float64 ndarrays or masked "
         "arrays; oracle = pointwise precedence model MISSING<UNKNOWN<GOOD<SUSPECT<FAIL over unmasked flag-valued entries, "
-        "plus the laws permutation-, duplication-invariance, idempotence, associativity over every split, and "
-        "aggregate(objects) == qartod_compare(results). non-trivial: >=2 vectors that disagree at some position, or a "
+        "plus the laws permutation-, duplication-invariance, idempotence, associativity over every split, "
+        "aggregate(objects) == the model, and the roll-up PandasStore.compute_aggregate() derives from the same vectors "
+        "delivered as results of up to three interleaved streams == the model. non-trivial: >=2 vectors that disagree at some position, or a "
         "masked / non-flag entry present. Exhaustive: alphabet {1,2,3,4,9,0,7,masked}, k<=3, length<=2")
 ASSUMPTIONS = ["vectors are 1-d numpy (masked) arrays of equal length, as the function asserts"]
 
@@ -64,7 +65,9 @@ def compare_case(draw, tier="quick"):
     perm = draw(st.permutations(list(range(k))))
     dup = draw(st.lists(st.integers(0, k - 1), max_size=3))
     split = draw(st.integers(1, k - 1)) if k > 1 else 0
-    return {"vectors": vs, "perm": perm, "dup": dup, "split": split}
+    # which stream each vector is a test result of (interleaved streams are the norm: [a, b, a])
+    streams = draw(st.lists(st.sampled_from(["a", "b", "c"]), min_size=k, max_size=k))
+    return {"vectors": vs, "perm": perm, "dup": dup, "split": split, "streams": streams}
 
 
 def build(v):
@@ -98,6 +101,9 @@ def check_compare(case, rec):
     if any(v["mask"] is not None and any(v["mask"]) and any(_isflag(x) and m for x, m in zip(v["vals"], v["mask"]))
            for v in vs):
         labels.append("flag_valued_junk_under_mask")
+    ss = case.get("streams") or []
+    if any(ss[i] == ss[j] and any(x != ss[i] for x in ss[i + 1:j]) for i in range(len(ss)) for j in range(i + 2, len(ss))):
+        labels.append("interleaved_streams")
     rec.note(disagree or special, labels)
     site = "qartod.qartod_compare"
     arrs = [build(v) for v in vs]
@@ -145,6 +151,24 @@ def check_compare(case, rec):
     got = flags(rec, "qartod.aggregate", rec.call("qartod.aggregate", qartod.aggregate, objs), n, law="aggregate")
     if got is not SKIP and got != want:
         rec.fail("qartod.aggregate", "aggregate(objects) != worst flag per point", expected=want, got=got, law="aggregate")
+    # the roll-up column a PandasStore computes over the collected results of several (interleaved) streams
+    from ioos_qc.stores import PandasStore
+    from ioos_qc.results import ContextResult
+    sids = case.get("streams") or ["a", "b", "a", "c", "b", "a"][:len(arrs)]
+    zero = np.zeros(n, dtype="float64")
+    ctxs = [ContextResult(stream_id=sid, results=[CallResult(package="qartod", test=f"t{i}", function=None, results=np.ma.array(a))],
+                          subset_indexes=np.ones(n, dtype=bool), data=zero, tinp=zero.astype("datetime64[s]"), zinp=zero,
+                          lat=zero, lon=zero) for i, (sid, a) in enumerate(zip(sids, arrs))]
+
+    def rollup():
+        store = PandasStore(ctxs)
+        store.compute_aggregate()
+        return store.collected_results[-1].results
+    site2 = "PandasStore.compute_aggregate"
+    got = flags(rec, site2, rec.call(site2, rollup), n, law="store_rollup")
+    if got is not SKIP and got != want:
+        rec.fail(site2, "roll-up over the collected results != worst flag per point", expected=want, got=got, law="store_rollup",
+                 streams=sids)
 
 
 ALPHA = [1, 2, 3, 4, 9, 0, 7, None]
@@ -172,4 +196,4 @@ SUBS = [Sub("compare", compare_case, check_compare, quick=4000, thorough=60000)]
 ENUMS = [Enum("compare_alphabet", enum_chunks, enum_cases, check_compare,
               describe="every tuple of k<=3 vectors of length<=2 over {1,2,3,4,9,0,7,masked(junk=4)} (8^6 + smaller): "
                        "contains the full 5x5 precedence table (quick tier: k<=2)", tiers=("quick", "thorough"))]
-REQUIRED_CLASSES = ["compare:vectors_disagree", "compare:masked_or_nonflag", "compare:flag_valued_junk_under_mask"]
+REQUIRED_CLASSES = ["compare:interleaved_streams", "compare:vectors_disagree", "compare:masked_or_nonflag", "compare:flag_valued_junk_under_mask"]
